@@ -48,8 +48,11 @@ async def run_mutant(h, spec):
         h.rs.source_calls = []
         h.rs.yielded = 0
         out = []
-        async for r in h.engine.subscribe(printed.text, operation_name=op, context=h.ctx_token, variables=copy.deepcopy(spec["variables"])):
-            out.append(r)
+        try:
+            async for r in h.engine.subscribe(printed.text, operation_name=op, context=h.ctx_token, variables=copy.deepcopy(spec["variables"])):
+                out.append(r)
+        except Exception as e:  # noqa - an invalid document must be *answered*, not make subscribe raise
+            return printed, {"$stream": out, "$raised": repr(e)}
         return printed, {"$stream": out}
     resp = await h.engine.execute(
         printed.text, operation_name=op, context=h.ctx_token, variables=copy.deepcopy(spec["variables"]),
@@ -65,8 +68,8 @@ def check_mutant(spec, h=None):
     stream_note = ""
     if "$stream" in resp:
         stream = resp["$stream"]
-        stream_note = " [subscribe yielded %d responses; source started: %r]" % (len(stream), h.rs.source_calls)
-        if len(stream) != 1 or h.rs.source_calls or h.rs.yielded:
+        stream_note = " [subscribe yielded %d responses; source started: %r%s]" % (len(stream), h.rs.source_calls, "; subscribe raised " + resp["$raised"] if "$raised" in resp else "")
+        if len(stream) != 1 or h.rs.source_calls or h.rs.yielded or "$raised" in resp:
             resp = {"data": {"$stream": len(stream)}, "errors": None}  # forces the refusal test below to fail with details
         else:
             resp = stream[0]
